@@ -11,10 +11,12 @@ import (
 	"errors"
 	"fmt"
 	"strings"
+	"time"
 
 	"google.golang.org/grpc"
 	"google.golang.org/grpc/connectivity"
 	"google.golang.org/grpc/credentials/insecure"
+	"google.golang.org/grpc/resolver/manual"
 
 	"github.com/openconfig/gnmi/connection"
 	"github.com/openconfig/gnmi/zzverif/hutil"
@@ -30,6 +32,9 @@ type cfgData struct {
 	// concRelease: the two releases of one handle are issued from two
 	// goroutines at once instead of one after the other
 	concRelease bool
+	// breaks: the connection handed to the first requester stops working
+	// (reports TRANSIENT_FAILURE) while it is held; later requesters arrive
+	breaks bool
 }
 
 type harness struct{}
@@ -61,6 +66,11 @@ func configsBase(tier string) []xplore.Config {
 	for _, s := range [][]string{{"A!", "A"}, {"A", "A!", "A"}, {"A!", "B"}} {
 		out = append(out, xplore.Config{Name: fmt.Sprintf("requesters=%v (! = unknown dialer) rounds=2", s), Bound: bound, Data: cfgData{addrs: s, rounds: 2}})
 	}
+	// the health of a connection that is held is the holder's business: a
+	// connection that stops working while held stays the holders' connection
+	for _, s := range [][]string{{"A", "A"}, {"A", "A", "A"}, {"A", "A", "B"}} {
+		out = append(out, xplore.Config{Name: fmt.Sprintf("requesters=%v, the held connection breaks before the others arrive", s), Bound: bound - 1, Data: cfgData{addrs: s, rounds: 1, breaks: true}})
+	}
 	rb := bound - 1
 	out = append(out, xplore.Config{Name: "requesters=[A A] canceller=false rounds=2", Bound: bound, Data: cfgData{addrs: []string{"A", "A"}, rounds: 2}})
 	out = append(out, xplore.Config{Name: "requesters=[A A B] canceller=true rounds=2", Bound: rb, Data: cfgData{addrs: []string{"A", "A", "B"}, canceller: true, rounds: 2}})
@@ -72,6 +82,28 @@ type dialRec struct {
 	conn    *grpc.ClientConn
 	err     error
 	outcome int
+	res     *manual.Resolver
+}
+
+// breakConn makes a connection created by the harness dialer report
+// TRANSIENT_FAILURE, stably: its resolver reports an error and there is no
+// address to fall back on. gRPC's own goroutines carry the state change; they
+// touch nothing of the manager, the harness waits for the state (an
+// environment answer, not a scheduling decision).
+func breakConn(rec *dialRec) {
+	rec.conn.Connect()
+	rec.res.ReportError(errors.New("name resolution failed"))
+	ctx, cancel := context.WithTimeout(context.Background(), 20*time.Second)
+	defer cancel()
+	for {
+		st := rec.conn.GetState()
+		if st == connectivity.TransientFailure {
+			return
+		}
+		if !rec.conn.WaitForStateChange(ctx, st) {
+			panic("harness: the connection never reported TRANSIENT_FAILURE (state " + st.String() + ")")
+		}
+	}
 }
 
 func (harness) Run(cfg xplore.Config, ch vrt.Chooser, trace bool) (xplore.Outcome, *vrt.Result) {
@@ -115,7 +147,14 @@ func (harness) Run(cfg xplore.Config, ch vrt.Chooser, trace bool) (xplore.Outcom
 				rec.err = dialErr
 				return nil, dialErr
 			}
-			cc, err := grpc.NewClient("passthrough:///"+target, grpc.WithTransportCredentials(insecure.NewCredentials()))
+			dopts := []grpc.DialOption{grpc.WithTransportCredentials(insecure.NewCredentials())}
+			url := "passthrough:///" + target
+			if d.breaks {
+				rec.res = manual.NewBuilderWithScheme("broken")
+				dopts = append(dopts, grpc.WithResolvers(rec.res))
+				url = "broken:///" + target
+			}
+			cc, err := grpc.NewClient(url, dopts...)
 			if err != nil {
 				panic(err)
 			}
@@ -147,11 +186,50 @@ func (harness) Run(cfg xplore.Config, ch vrt.Chooser, trace bool) (xplore.Outcom
 			}
 		}
 		d.addrs = clean
+		held := make(chan struct{})    // closed once requester 0 holds its connection and it has broken
+		othersIn := make(chan struct{}) // closed once the other requesters have their answers
+		nOthers := 0
 		for i, addr := range d.addrs {
 			i, addr := i, addr
 			dialer := connection.DEFAULT
 			if usesBad[i] {
 				dialer = "no-such-dialer"
+			}
+			if d.breaks {
+				vrt.GoNamed(fmt.Sprintf("req%d-%s", i, addr), func() {
+					if i > 0 {
+						vrt.Recv(held)
+					}
+					conn, done, err := m.Connection(ctxs[i], addr, dialer)
+					results[i] = append(results[i], hold{conn, err})
+					if err != nil {
+						if i == 0 {
+							vrt.Close(held)
+						} else if nOthers++; nOthers == len(d.addrs)-1 {
+							vrt.Close(othersIn)
+						}
+						return
+					}
+					if i == 0 {
+						for _, dr := range dials {
+							if dr.conn == conn {
+								breakConn(dr)
+							}
+						}
+						vrt.Close(held)
+						vrt.Recv(othersIn)
+					} else if nOthers++; nOthers == len(d.addrs)-1 {
+						vrt.Close(othersIn)
+					}
+					vrt.Yield()
+					if conn.GetState() == connectivity.Shutdown {
+						viol("closed-while-held", "the connection to %s was closed while requester %d still held it", addr, i)
+					}
+					done()
+					vrt.Yield()
+					done()
+				})
+				continue
 			}
 			vrt.GoNamed(fmt.Sprintf("req%d-%s", i, addr), func() {
 				for r := 0; r < d.rounds; r++ {
